@@ -435,10 +435,28 @@ Definition check_hist_case (h : hist_case) : bool * bool :=
     end &&
     hc_proc_ok h ).
 
+(** * Experiment 4: suite-supplied instructions of every family, with symbol references in every
+    syntactic position, over cases that define those symbols differently (also wrongly) and set
+    their own [conf]
+
+    No instruction semantics is modelled here.  What the model says about such a run is the
+    conjunction of [C17_standalone_equals_in_suite], [C17_every_case_as_if_first_partial] and
+    [C17_stateless_suite_objects_independent]: what a case does and results in as part of the suite
+    run is what it does and results in alone with that suite given.  The prediction for every case is
+    therefore its observation (identifier, lines written by probe instructions; both as numbers)
+    when run alone with [--suite] in a fresh process; the property predicate is the same equality. *)
+Record diff_case := DiffCase {
+  df_in_run : list (N * list N);      (* the cases of one run in one process, in order *)
+  df_alone : list (N * list N) }.     (* the same cases, each alone in a fresh process *)
+Definition check_diff_case (d : diff_case) : bool * bool :=
+  let eq := list_eqb (fun a b => N.eqb (fst a) (fst b) && list_eqb N.eqb (snd a) (snd b)) (df_in_run d) (df_alone d) in
+  (eq, eq).
+
 (** * All experiments *)
-Inductive c17_case := KSuite (k : suite_case) | KHist (h : hist_case).
+Inductive c17_case := KSuite (k : suite_case) | KHist (h : hist_case) | KDiff (d : diff_case).
 Definition check_c17 (c : c17_case) : bool * bool :=
   match c with
   | KSuite k => check_suite_case k
   | KHist h => check_hist_case h
+  | KDiff d => check_diff_case d
   end.
